@@ -441,7 +441,7 @@ def order_strategy(tier):
 
 @st.composite
 def batch_cases(draw):
-    t = draw(st.sampled_from(["rule", "rule", "layer", "diagram", "scan"]))
+    t = draw(st.sampled_from(["rule", "rule", "layer", "layer", "diagram", "scan"]))
     if t == "rule":
         tree = draw(RS.trees(root="q", max_modules=10))
         ks, ko = draw(st.sampled_from(RS.KINDS)), draw(st.sampled_from(RS.KINDS))
@@ -465,7 +465,26 @@ def batch_cases(draw):
             imports = sorted(set(imports) | {(r["subj"]["names"][0], y)}) if not M.related(r["subj"]["names"][0], y) else imports
         return {"type": "rule", "tree": tree, "imports": [list(x) for x in imports], "rule": r}
     if t == "layer":
-        return dict(draw(c05.cases()), type="layer")
+        if draw(st.booleans()):
+            return dict(draw(c05.cases()), type="layer")
+        # a subject layer of several modules with imports inside the layer and out of it: whichever import a search meets
+        # first (set iteration order, hence the hash seed) must not matter
+        tree = ["q", "q.a", "q.a.x", "q.a.y", "q.b", "q.b.z", "q.c", "q.c.k", "q.d", "q.e"]
+        layers = [{"name": "L1", "kind": draw(st.sampled_from(["names", "regex"])), "modules": ["q.a", "q.b"], "as_str": False},
+                  {"name": "L2", "kind": "names", "modules": ["q.c"], "as_str": False},
+                  {"name": "L3", "kind": "names", "modules": ["q.d"], "as_str": False}]
+        for ld in layers:
+            if ld["kind"] == "regex":
+                ld["regex"] = c05.layer_regex(ld["modules"])
+        inside = [("q.a.x", "q.b.z"), ("q.b", "q.a.y"), ("q.a.y", "q.a.x"), ("q.b.z", "q.a")]
+        out = [("q.a.x", "q.c.k"), ("q.b.z", "q.d"), ("q.a.y", "q.e"), ("q.c", "q.a.x"), ("q.e", "q.b"), ("q.d", "q.b.z")]
+        # one listed module always has an import that stays in the layer and (from another of its sub modules) one that leaves it
+        both = draw(st.sampled_from([[("q.a.x", "q.b.z"), ("q.a.y", "q.e")], [("q.b", "q.a.y"), ("q.b.z", "q.d")], [("q.a.y", "q.a.x"), ("q.a.x", "q.c.k")]]))
+        imports = sorted(set(both + draw(st.lists(st.sampled_from(inside), max_size=2, unique=True)) + draw(st.lists(st.sampled_from(out), max_size=2, unique=True))))
+        v, d, e = draw(st.sampled_from(RS.SHAPES))
+        rule = {"verb": v, "dir": "access" if d == "import" else "accessed", "exc": e, "anything": False, "subj": "L1",
+                "obj": draw(st.sampled_from([["L2"], ["L3"], ["L2", "L3"]])), "obj_as_str": False}
+        return {"type": "layer", "tree": tree, "imports": [list(x) for x in imports], "layers": layers, "rule": rule}
     if t == "diagram":
         if draw(st.booleans()):
             return dict(draw(c07.cases()), type="diagram")
@@ -604,7 +623,7 @@ def run(ctx) -> None:
     ctx.exhaustive("stateful-histories", MOD, "machine_shard", [(derive_seed(ctx.seed, ID, "machine", i), per) for i in range(16)],
                    f"16 x {per} Hypothesis state-machine runs of up to 40 steps (seeded)", kind="hypothesis-stateful")
     ctx.random("directory-and-exclusion-order", MOD, "order_strategy", "check_order_case", 1000 if quick else 12000)
-    hash_seed_part(ctx, 240 if quick else 2400)
+    hash_seed_part(ctx, 400 if quick else 3000)
 
 
 if __name__ == "__main__":
